@@ -151,6 +151,9 @@ func FaultOps() []Op {
 	return []Op{
 		{Text: `{argBoom(b:"x") t{boom name}}`},
 		{Text: `query($b:Boom){argBoom(b:$b) str}`, Vars: map[string]any{"b": "y"}},
+		// a LIST of the fault-capable scalar: each element is a fault point of its own
+		{Text: `{argBooms(bs:["x","y","z"]) str}`},
+		{Text: `query($l:[Boom!]){argBooms(bs:$l) a:argBooms(bs:["q"])}`, Vars: map[string]any{"l": []any{"v", "w"}}},
 		{Text: `{ts{boom kids{boom}}}`},
 		{Text: `{peers{id peer{id}} node{id} u{__typename}}`},
 	}
